@@ -290,9 +290,23 @@ def run_shard(spec):
     res = {"cases": 0, "viol": [], "nontrivial": [], "dur_checked": 0, "worst_dur_err": 0.0, "worst_energy_rel": 0.0,
            "families": {}, "samples": [], "horizons": [], "windows_ok": 0}
     bh = None
+    n_bh = 0
     for i in range(spec["n"]):
         if bh is None or i % spec["per_borehole"] == 0:
-            bh = draw_borehole(g)
+            n_bh += 1
+            if bh is not None and n_bh % 3 == 0:
+                # a sibling of the previous borehole in the same process: same height, ground, geometry and conductivities (hence the same
+                # time scale and borehole resistance) but other volumetric heat capacities of grout and pipe - the short-time response, and
+                # with it every peak duration, is another one
+                import copy as _copy
+
+                bh = _copy.deepcopy(bh)
+                bh["phys"]["grout"]["rho_cp"] = float(round(bh["phys"]["grout"]["rho_cp"] * float(g.choice([0.35, 0.5, 1.8, 2.5])), 0))
+                bh["phys"]["pipe"]["rho_cp"] = float(round(bh["phys"]["pipe"]["rho_cp"] * float(g.choice([0.5, 1.0, 2.0])), 0))
+                bh["sibling_of_previous"] = True
+                res["sibling_boreholes"] = res.get("sibling_boreholes", 0) + 1
+            else:
+                bh = draw_borehole(g)
             try:
                 bhe_eq, rn = build_sts(bh)
             except Exception as e:  # generator produced an unusable borehole: count, do not judge
@@ -356,6 +370,7 @@ def run_check(prop, tier, seed):
         rep.count("durations_recomputed", r["dur_checked"])
         rep.count("cases_with_non_overlapping_windows", r["windows_ok"])
         rep.count("skipped_unusable_borehole", r.get("skipped_borehole", 0))
+        rep.count("sibling_boreholes_same_time_scale_and_resistance", r.get("sibling_boreholes", 0))
         for s in r["samples"]:
             rep.sample(s)
         for v in r["viol"]:
